@@ -36,7 +36,7 @@ struct LenpHarness : Harness {
     std::vector<std::string> props() const override { return {"C13"}; }
     std::vector<std::string> probes(const std::string &) const override {
         return {"varint_prefix_1", "varint_prefix_2", "varint_prefix_3plus", "buffer_with_offset_and_free_space", "chunk_list_with_empty_chunk", "chunk_list_active_nonzero",
-                "frame_split_inside_prefix", "destination_one_octet_too_small", "over_maximum_refused", "source_lends_its_window", "prefix_declares_more_than_any_destination", "unmaterialised_length_accepted", "kind_maximum_accepted", "sink_error_mid_frame", "buffer_n_less_than_rest",
+                "frame_split_inside_prefix", "destination_one_octet_too_small", "over_maximum_refused", "varint_through_header_wrapper", "source_lends_its_window", "prefix_declares_more_than_any_destination", "unmaterialised_length_accepted", "kind_maximum_accepted", "sink_error_mid_frame", "buffer_n_less_than_rest",
                 "n_beyond_unread_refused", "fragmented_decode", "append_behind_existing_content", "multi_frame_stream_fragmented", "source_interruption_during_decode"};
     }
     uint64_t runs(const std::string &, const Tier &t) const override { return t.thorough() ? 10000000 : 1200000; }
@@ -78,7 +78,7 @@ struct LenpHarness : Harness {
             bool enc = r.chance(1, 2);
             std::string ep = enc ? r.pick(ENC_EPS) : r.pick(DEC_EPS);
             int k = (int)r.below(6);
-            o["ep"] = ep; o["kind"] = k;
+            o["ep"] = ep; o["kind"] = k; if (k == 0 && r.chance(1, 2)) o["wrap"] = 1;
             int64_t len;
             switch (r.below(8)) {
             case 0: len = r.range(1, 3); break;
@@ -153,10 +153,14 @@ struct LenpHarness : Harness {
         }
     }
 
+// the varint kind is also reachable through the lenp_*() wrappers of the header: half of the varint operations go through them
+#define LENP(fn, ...) (use_wrapper ? lenp_##fn(__VA_ARGS__) : flenp_##fn(K, __VA_ARGS__))
     void run_op(Ctx &c, const Json &o, size_t oi) {
         const std::string ep = o.gets("ep");
         int k = (int)(o.geti("kind") % 6); if (k < 0) k = 0;
         const LengthPrefixKind K = (LengthPrefixKind)k;
+        const bool use_wrapper = k == 0 && o.geti("wrap") != 0;
+        if (use_wrapper) COUNT("probe.varint_through_header_wrapper");
         int64_t len = o.geti("len", 1); if (len < 1) len = 1; if (len > 70000) len = 70000;
         SimSink snk; snk.c = &c; snk.octet_kind = o.geti("snk_octet") != 0;
         snk.begin_op(o.get("ks"));
@@ -228,7 +232,7 @@ struct LenpHarness : Harness {
                     if (n == kind_max(k)) COUNT("probe.kind_maximum_accepted");
                     if (ep == "mem_enc") {
                         LengthPrefixBuffer lpb; memset(&lpb, 0xa5, sizeof lpb);
-                        int rc = flenp_memory_encode(K, &lpb, ptr, (size_t)n);
+                        int rc = LENP(memory_encode, &lpb, ptr, (size_t)n);
                         c.ev(EV_API, 2, (uint64_t)rc, lpb.prefix.used);
                         if (check_prefix_obj(rc, lpb.prefix, lpb.prefix_, n)) {
                             if (lpb.payload.data != m.b.data || byte_buffer_rest(&lpb.payload) != n || lpb.payload.offset != 0)
@@ -242,7 +246,7 @@ struct LenpHarness : Harness {
                     VirtualDrv D; D.c = &c; D.base = base; D.total = n; D.accept_small = true;
                     const Json &cj = o.get("hcaps"); for (size_t i = 0; i < cj.size() && i < 16; ++i) D.caps.push_back(cj.ati(i, INT64_MAX));
                     Sink vk; chunk_sink_init(&vk, VirtualDrv::sink_cb, &D);
-                    ssize_t rc = 0; bool fin = WITH_BUDGET(c, D.caps.size() + 32, rc = flenp_memory_to_sink(K, &vk, base, (size_t)n));
+                    ssize_t rc = 0; bool fin = WITH_BUDGET(c, D.caps.size() + 32, rc = LENP(memory_to_sink, &vk, base, (size_t)n));
                     c.ev(EV_API, 1, (uint64_t)rc, D.moved);
                     if (!fin) { F("noprogress", "no return within the step budget (length %llu, %llu moved)", (unsigned long long)n, (unsigned long long)D.moved); return; }
                     Bytes want = ref_prefix(k, n);
@@ -253,13 +257,13 @@ struct LenpHarness : Harness {
                 }
             }
             if (ep == "mem_sink") {
-                ssize_t rc = 0; bool fin = WITH_BUDGET(c, budget, rc = flenp_memory_to_sink(K, &sink, ptr, (size_t)n));
+                ssize_t rc = 0; bool fin = WITH_BUDGET(c, budget, rc = LENP(memory_to_sink, &sink, ptr, (size_t)n));
                 c.ev(EV_API, 1, (uint64_t)rc, snk.got.size());
                 if (n > (uint64_t)SSIZE_MAX) { if (!fin || rc != -EINVAL || !snk.got.empty()) F("refuse", "length above SSIZE_MAX not refused (rc %zd)", rc); return; }
                 check_sink(rc, fin, n == (uint64_t)len ? m.unread() : Bytes(), n);
             } else {
                 LengthPrefixBuffer lpb; memset(&lpb, 0xa5, sizeof lpb);   /* a dirty object: nothing may depend on earlier content */
-                int rc = flenp_memory_encode(K, &lpb, ptr, (size_t)n);
+                int rc = LENP(memory_encode, &lpb, ptr, (size_t)n);
                 c.ev(EV_API, 2, (uint64_t)rc, lpb.prefix.used);
                 if (n > (uint64_t)SSIZE_MAX) { if (rc != -EINVAL) F("refuse", "length above SSIZE_MAX not refused (rc %d)", rc); return; }
                 if (check_prefix_obj(rc, lpb.prefix, lpb.prefix_, n)) {
@@ -284,8 +288,8 @@ struct LenpHarness : Harness {
             if (with_n && n > rest) {
                 // more than the unread content: must be refused, nothing emitted, buffer unchanged
                 ssize_t rc; bool fin = true;
-                if (ep == "buf_sink_n") fin = WITH_BUDGET(c, budget, rc = flenp_buffer_to_sink_n(K, &sink, &B.b, n));
-                else { LengthPrefixBuffer lpb; rc = flenp_buffer_encode_n(K, &lpb, &B.b, n); }
+                if (ep == "buf_sink_n") fin = WITH_BUDGET(c, budget, rc = LENP(buffer_to_sink_n, &sink, &B.b, n));
+                else { LengthPrefixBuffer lpb; rc = LENP(buffer_encode_n, &lpb, &B.b, n); }
                 c.ev(EV_API, 3, (uint64_t)rc, n);
                 if (!fin || rc != -EINVAL) F("refuse_n", "n=%zu exceeds the %zu unread octets, returned %zd", n, rest, rc);
                 if (!snk.got.empty()) F("refuse_n", "octets emitted for a refused request");
@@ -296,13 +300,13 @@ struct LenpHarness : Harness {
             Bytes designated = with_n ? Bytes(unread.begin(), unread.begin() + (long)n) : unread;
             if (ep == "buf_sink" || ep == "buf_sink_n") {
                 ssize_t rc = 0; bool fin;
-                if (with_n) fin = WITH_BUDGET(c, budget, rc = flenp_buffer_to_sink_n(K, &sink, &B.b, n));
-                else fin = WITH_BUDGET(c, budget, rc = flenp_buffer_to_sink(K, &sink, &B.b));
+                if (with_n) fin = WITH_BUDGET(c, budget, rc = LENP(buffer_to_sink_n, &sink, &B.b, n));
+                else fin = WITH_BUDGET(c, budget, rc = LENP(buffer_to_sink, &sink, &B.b));
                 c.ev(EV_API, 4, (uint64_t)rc, snk.got.size());
                 check_sink(rc, fin, designated, designated.size());
             } else {
                 LengthPrefixBuffer lpb; memset(&lpb, 0xa5, sizeof lpb);   /* a dirty object: nothing may depend on earlier content */
-                int rc = with_n ? flenp_buffer_encode_n(K, &lpb, &B.b, n) : flenp_buffer_encode(K, &lpb, &B.b);
+                int rc = with_n ? LENP(buffer_encode_n, &lpb, &B.b, n) : LENP(buffer_encode, &lpb, &B.b);
                 c.ev(EV_API, 5, (uint64_t)rc, lpb.prefix.used);
                 if (check_prefix_obj(rc, lpb.prefix, lpb.prefix_, designated.size())) {
                     if (lpb.payload.data != B.blk->p + off0 || byte_buffer_rest(&lpb.payload) != designated.size())
@@ -332,13 +336,13 @@ struct LenpHarness : Harness {
             if (act > 0) COUNT("probe.chunk_list_active_nonzero");
             if (ep == "chunks_sink") {
                 ByteChunks bc; bc.chunks = nch; bc.active = (size_t)act; bc.chunk = arr.data();
-                ssize_t rc = 0; bool fin = WITH_BUDGET(c, budget + 8 * designated.size(), rc = flenp_chunks_to_sink(K, &sink, &bc));
+                ssize_t rc = 0; bool fin = WITH_BUDGET(c, budget + 8 * designated.size(), rc = LENP(chunks_to_sink, &sink, &bc));
                 c.ev(EV_API, 6, (uint64_t)rc, snk.got.size());
                 check_sink(rc, fin, designated, designated.size());
             } else {
                 LengthPrefixChunks lpc; memset(&lpc, 0xa5, sizeof lpc);
                 lpc.payload.chunks = nch; lpc.payload.active = (size_t)act; lpc.payload.chunk = arr.data();
-                int rc = flenp_chunks_use(K, &lpc);
+                int rc = LENP(chunks_use, &lpc);
                 c.ev(EV_API, 7, (uint64_t)rc, lpc.prefix.used);
                 check_prefix_obj(rc, lpc.prefix, lpc.prefix_, designated.size());
             }
@@ -388,7 +392,7 @@ struct LenpHarness : Harness {
         if (ep == "mem_from") {
             int64_t cap = o.geti("cap", len); if (cap < 0) cap = 0; if (cap > len + 64) cap = len + 64;
             GuardedBlock dst((size_t)cap);
-            ssize_t rc = 0; bool fin = WITH_BUDGET(c, dbudget, rc = flenp_memory_from_source(K, &source, dst.p, (size_t)cap));
+            ssize_t rc = 0; bool fin = WITH_BUDGET(c, dbudget, rc = LENP(memory_from_source, &source, dst.p, (size_t)cap));
             c.ev(EV_API, 8, (uint64_t)rc, (uint64_t)cap);
             if (!fin) { F("noprogress", "no return within the step budget"); return; }
             if (declared_only) {
@@ -416,7 +420,7 @@ struct LenpHarness : Harness {
             // give the destination buffer a read mark in the middle of its content sometimes
             if (before > 1 && (o.get("dbuf").ati(0, 0) & 1)) D.b.offset = (size_t)before / 2;
             const size_t off0 = D.b.offset, used0 = D.b.used;
-            ssize_t rc = 0; bool fin = WITH_BUDGET(c, dbudget, rc = flenp_buffer_from_source(K, &source, &D.b));
+            ssize_t rc = 0; bool fin = WITH_BUDGET(c, dbudget, rc = LENP(buffer_from_source, &source, &D.b));
             c.ev(EV_API, 9, (uint64_t)rc, (uint64_t)cap);
             if (!fin) { F("noprogress", "no return within the step budget"); return; }
             size_t L = payloads[0].size();
@@ -444,7 +448,7 @@ struct LenpHarness : Harness {
             Bytes all;
             for (size_t f = 0; f < payloads.size(); ++f) {
                 size_t s0 = snk.got.size();
-                ssize_t rc = 0; bool fin = WITH_BUDGET(c, dbudget, rc = flenp_decode_source_to_sink(K, &source, &sink));
+                ssize_t rc = 0; bool fin = WITH_BUDGET(c, dbudget, rc = LENP(decode_source_to_sink, &source, &sink));
                 c.ev(EV_API, 10, (uint64_t)rc, snk.got.size());
                 c.execs++;
                 if (!fin) { F("noprogress", "no return within the step budget"); return; }
